@@ -29,19 +29,20 @@ type Monitors struct {
 	// commit monitor
 	commits map[int][]*hotstuff.Block // actor idx -> committed blocks in order
 	// pacemaker monitor
-	last      map[int]paceSnap
-	vcEvents  map[int][]hotstuff.ViewChangeEvent
-	evidence  *evidenceIndex
-	signSeen  int
+	last     map[int]paceSnap
+	vcEvents map[int][]hotstuff.ViewChangeEvent
+	evidence *evidenceIndex
+	signSeen int
 	// vote monitor
-	voteState map[hotstuff.ID]*voteTrack
+	voteState    map[hotstuff.ID]*voteTrack
 	unclassified int
 	// exec monitor
-	execEv    map[int][]execRec // actor idx -> Execute/Abort events in dispatch order
-	digests   map[int]map[uint32][]byte
-	succ      map[int]map[clientpb.MessageID]int
-	execSeqs  map[int][]string // actor idx -> reconstructed executed sequence (client/seq/data digest)
-	outSeen   int
+	execEv     map[int][]execRec // actor idx -> Execute/Abort events in dispatch order
+	digests    map[int]map[uint32][]byte
+	succ       map[int]map[cmdKey]int
+	barrierOff map[int]bool
+	execSeqs   map[int][]string // actor idx -> reconstructed executed sequence (client/seq/data digest)
+	outSeen    int
 	// observations
 	Obs map[string]int64
 }
@@ -66,7 +67,7 @@ type execRec struct {
 
 func newMonitors(c *Cluster) *Monitors {
 	m := &Monitors{c: c, commits: map[int][]*hotstuff.Block{}, last: map[int]paceSnap{}, vcEvents: map[int][]hotstuff.ViewChangeEvent{},
-		evidence: newEvidenceIndex(c.W), voteState: map[hotstuff.ID]*voteTrack{}, execEv: map[int][]execRec{}, digests: map[int]map[uint32][]byte{}, succ: map[int]map[clientpb.MessageID]int{}, Obs: map[string]int64{}}
+		evidence: newEvidenceIndex(c.W), voteState: map[hotstuff.ID]*voteTrack{}, execEv: map[int][]execRec{}, digests: map[int]map[uint32][]byte{}, succ: map[int]map[cmdKey]int{}, Obs: map[string]int64{}}
 	for _, a := range c.Actors {
 		if a.Node == nil {
 			continue
@@ -186,13 +187,13 @@ func (m *Monitors) checkPrefix() {
 // evidenceIndex answers "is there a view u >= v for which a quorum of distinct replicas
 // really signed one block of view u, or really signed timeouts for view u".
 type evidenceIndex struct {
-	w           *vk.World
-	next        int
-	blockSig    map[hotstuff.Hash]map[hotstuff.ID]bool
-	viewSig     map[hotstuff.View]map[hotstuff.ID]bool
-	msgSig      map[hotstuff.View]map[hotstuff.ID]bool
-	maxEvidence hotstuff.View
-	hasEvidence bool
+	w            *vk.World
+	next         int
+	blockSig     map[hotstuff.Hash]map[hotstuff.ID]bool
+	viewSig      map[hotstuff.View]map[hotstuff.ID]bool
+	msgSig       map[hotstuff.View]map[hotstuff.ID]bool
+	maxEvidence  hotstuff.View
+	hasEvidence  bool
 	unclassified int
 }
 
@@ -428,8 +429,8 @@ func (m *Monitors) pollExec(a *Actor) {
 // awaitingCmds) must have recorded its outcome before the monitor looks at the outcome list.
 func (m *Monitors) settle() {
 	f := m.c.cmd
-	deadline := time.Now().Add(60 * time.Second)
 	for _, a := range m.c.Actors {
+		deadline := time.Now().Add(3 * time.Second)
 		if a.CIO == nil {
 			continue
 		}
@@ -439,6 +440,9 @@ func (m *Monitors) settle() {
 			m.c.R.Note("ClientIO.awaitingCmds not readable: outcome barrier degraded to a short sleep")
 			time.Sleep(300 * time.Microsecond)
 			return
+		}
+		if m.barrierOff[a.Idx] {
+			continue
 		}
 		for {
 			pm.Lock()
@@ -451,8 +455,16 @@ func (m *Monitors) settle() {
 				break
 			}
 			if time.Now().After(deadline) {
-				m.c.R.Note("outcome barrier watchdog fired (client goroutine did not record within 10s)")
-				return
+				// a call that is neither waiting in awaitingCmds nor returned: its waiter was lost. "At most one outcome"
+				// allows that; the barrier is given up for this replica (outcomes are then seen when they are recorded,
+				// which can only delay a verdict) and the execution goes on.
+				m.c.R.Note("outcome barrier given up for %s: %d calls submitted, %d returned, %d waiting in ClientIO", a.Name(), sub, rec, awaiting)
+				m.Obs["client_calls_neither_waiting_nor_returned"] += int64(sub - awaiting - rec)
+				if m.barrierOff == nil {
+					m.barrierOff = map[int]bool{}
+				}
+				m.barrierOff[a.Idx] = true
+				break
 			}
 			time.Sleep(5 * time.Microsecond)
 		}
@@ -481,7 +493,7 @@ func (m *Monitors) checkExecStep() {
 		}
 		m.Obs["success_outcomes"]++
 		if m.succ[o.Actor] == nil {
-			m.succ[o.Actor] = map[clientpb.MessageID]int{}
+			m.succ[o.Actor] = map[cmdKey]int{}
 		}
 		m.succ[o.Actor][o.ID]++
 		if m.succ[o.Actor][o.ID] > 1 {
@@ -494,7 +506,7 @@ func (m *Monitors) checkExecStep() {
 				continue
 			}
 			for _, cmd := range ev.cmds {
-				if cmd.ID() == o.ID {
+				if keyOf(cmd) == o.ID {
 					found = true
 				}
 			}
@@ -519,13 +531,13 @@ func (m *Monitors) checkExecEnd() {
 	}
 	for _, a := range js {
 		chain := m.commits[a.Idx]
-		firstPos := map[clientpb.MessageID]int{}
+		firstPos := map[cmdKey]int{}
 		pos := 0
 		dupInChain := false
 		for _, b := range chain {
 			for _, cmd := range b.Commands().GetCommands() {
-				if _, ok := firstPos[cmd.ID()]; !ok {
-					firstPos[cmd.ID()] = pos
+				if _, ok := firstPos[keyOf(cmd)]; !ok {
+					firstPos[keyOf(cmd)] = pos
 				} else {
 					dupInChain = true
 				}
@@ -547,7 +559,7 @@ func (m *Monitors) checkExecEnd() {
 			last := map[uint32]uint64{}
 			h := sha256.New()
 			cnt := 0
-			executed := map[clientpb.MessageID]bool{}
+			executed := map[cmdKey]bool{}
 			for _, ev := range m.execEv[a.Idx] {
 				if ev.abort {
 					continue
@@ -559,7 +571,7 @@ func (m *Monitors) checkExecEnd() {
 					last[cmd.GetClientID()] = cmd.GetSequenceNumber()
 					h.Write(cmd.GetData())
 					cnt++
-					executed[cmd.ID()] = true
+					executed[keyOf(cmd)] = true
 				}
 			}
 			if cnt == int(a.CIO.CmdCount()) && bytes.Equal(h.Sum(nil), a.CIO.Hash().Sum(nil)) {
@@ -597,7 +609,7 @@ func (m *Monitors) checkExecEnd() {
 			}
 		}
 		type sp struct {
-			id  clientpb.MessageID
+			id  cmdKey
 			pos int
 		}
 		var seq []sp
